@@ -221,6 +221,18 @@ def fault_programs(dev):
                                   {"op": "dispense", "lw": P, "wells": S((0, 1)), "vols": L([3, 3]), "label": "d"},
                                   {"op": "aspirate", "lw": P, "wells": L([(0, 1)]), "vols": S(8), "label": "3 + 3 - 8 < 1"}], wlmax=10)
     prog("dispense-oversized", [warm, {"op": "dispense", "lw": T, "wells": L([(0, 0)]), "vols": S(6), "label": None}], wlmax=5)
+    # two faults in one call: a limit violation at an earlier well and a step above the worklist's max_volume at a later one
+    # (whichever is reported, no record may stay behind that the labware never accepted)
+    prog("aspirate-underflow-then-oversized", [warm, {"op": "aspirate", "lw": P, "wells": L([(0, 1), (1, 2)]), "vols": L([4, 7]), "label": "a"},
+                                               {"op": "aspirate", "lw": T, "wells": L([(0, 1), (1, 0)]), "vols": L([4, 7]), "label": "a"}], wlmax=5)
+    prog("dispense-overflow-then-oversized", [warm, {"op": "dispense", "lw": P, "wells": L([(1, 2), (0, 1)]), "vols": L([2, 6]), "label": "d"},
+                                              {"op": "dispense", "lw": P, "wells": L([(0, 0), (1, 2), (0, 1)]), "vols": L([1, 3, 8]), "label": "d"}], wlmax=5)
+    # a chain inside one column of one plate whose middle well is full: the dispense into it is refused although the very
+    # same round would take liquid out of it again (steps happen in the order of the records)
+    prog("chain-through-a-full-well", [warm, {"op": "dispense", "lw": P, "wells": L([(1, 0)]), "vols": S(5), "label": "B01 holds 9"},
+                                       {"op": "dispense", "lw": P, "wells": L([(1, 0)]), "vols": S(1), "label": "B01 is full now"},
+                                       {"op": "transfer", "src": P, "sw": L([(0, 0), (1, 0)]), "dst": P, "dw": L([(1, 0), (0, 1)]), "vols": S(2),
+                                        "label": "through B01", "wash": 1, "pby": "source"}])
     # large vessels: a limit must not be softened by a relative tolerance
     big = [gen.mk_plate("waste", 1, 2, 100000, 25000000, [24999000, 100500]), gen.mk_trough("res", 8, 1, 1000000, 250000000, [249999990])]
     for name, ops in [
